@@ -241,7 +241,7 @@ int a_str_catv(a_str *ctx, char const *fmt, va_list va)
     va_copy(ap, va);
     res = vsnprintf(ptr, mem, fmt, ap);
     va_end(ap);
-    mem = ctx->num_ + (a_size)(res + 1);
+    mem = ctx->num_ + (a_size)res + 1;
     if (mem > ctx->mem_)
     {
         if (A_UNLIKELY(a_str_setm_(ctx, mem)))
